@@ -37,6 +37,10 @@ func checkC11(p *Program, r *Result) {
 	checkParserTolerance(p, r, g)
 	checkAttachmentTail(p, r)
 	checkActiveReader(p, r)
+	r.rule("C11.x", "a record ending exactly at the end of its buffer is accepted", 1)
+	checkExactFit(p, r, "C11.x", sortedFuncs(readerScope(p)))
+	r.rule("C11.w", "no read path accepts only a closed list of opcodes", 1)
+	checkNoOpcodeWhitelist(p, r, "C11.w", sortedFuncs(readerScope(p)))
 }
 
 func checkLexerSwitch(p *Program, r *Result, g *goLayouts) {
